@@ -88,10 +88,11 @@ def run(ctx):
                          "(remove_state / remove_port changed?) -- the model still has it: the tie below decides")
 
     # ---- 2. model exploration (search component): no bad unlink without forced removal ----
-    rc, ex_out = vlib.sh("%s explore 2 3 plain" % driver, timeout=900)
+    ex_cmd = "explore 2 3 plain" if ctx.thorough() else "explore 2 2 plain"
+    rc, ex_out = vlib.sh("%s %s" % (driver, ex_cmd), timeout=900)
     goals = {l.split()[1]: l for l in ex_out.split("\n") if l.startswith("GOAL")}
     explored = [l for l in ex_out.split("\n") if l.startswith("EXPLORED")]
-    ctx.cov["model_exploration"] = {"cmd": "driver explore 2 3 plain", "result": explored[:1], "goals": goals}
+    ctx.cov["model_exploration"] = {"cmd": "driver " + ex_cmd, "result": explored[:1], "goals": goals}
     if rc != 0 or not explored:
         ctx.violation("model explorer failed", {"rc": rc, "out": ex_out[-1500:]}, no_input=True)
     elif "none" not in goals.get("full", ""):
